@@ -53,7 +53,7 @@ def exc_site(e):
     """Name of the innermost library function on the traceback of e (mechanism of a crash)."""
     site = None
     for fs in traceback.extract_tb(e.__traceback__):
-        if "torchphysics" in fs.filename and "/verif/" not in fs.filename:
+        if "torchphysics" in fs.filename and "/verif/" not in fs.filename and fs.name != "__torch_function__":
             site = fs.name
     return site or "?"
 
